@@ -541,6 +541,9 @@ Proof.
     destruct (_ && _) eqn:G; [|discriminate]. intros E; injection E as <-.
     apply andb_prop in G. destruct G as [G G4]. apply andb_prop in G. destruct G as [G G3]. apply andb_prop in G. destruct G as [G1 G2].
     apply add_events_inv_eok; [|exact H]. intros tp _. apply meta_text_eok; [lia|lia|exact G4].
+  - (* TTempoChange *) intros E. apply (exec_tempo_change_inv events_inv) in E; [exact E| | |exact H].
+    + intros s0 v H0. apply tempo_change_inv, H0.
+    + intros s0 f H0. apply inv_upd_cur; [intros t0 Ht0; exact Ht0|exact H0].
 Qed.
 
 Theorem exec_f_events_inv steps d toks s s' :
@@ -814,6 +817,9 @@ Proof.
   - (* TPlay *) intros E. apply (exec_play_dims ec s args lineno s' Hec H E).
   - (* TMetaText *) destruct (_ && _); [|discriminate]. intros E; injection E as <-.
     apply (dims_of_dsig s _ (dsig_add_events s _) H).
+  - (* TTempoChange *) intros E. apply (exec_tempo_change_inv dims_inv) in E; [exact E| | |exact H].
+    + intros s0 v H0. apply (dims_of_dsig s0 _ (dsig_tempo_change s0 v) H0).
+    + intros s0 f H0. apply (dims_of_dsig s0 _ (dsig_upd_cur s0 _) H0).
 Qed.
 
 Theorem exec_f_dims steps d toks s s' :
